@@ -350,7 +350,10 @@ impl<C: CellType> OptRebuild<'_, C> {
                     let mut last = isize::MIN;
                     for &var in vars {
                         if let Some(expr) = self.pending.get(&var) {
-                            if expr.add_count() > 1 || (last == var && expr.op_count() > 1) {
+                            if expr.add_count() > 1
+                                || (last == var && expr.op_count() > 1)
+                                || expr.op_count() >= 32
+                            {
                                 self.emit(var);
                             }
                         }
